@@ -209,6 +209,20 @@ def print_assumptions(pid):
     return {'closed': closed, 'axioms': axioms, 'raw': out[-4000:]}, None
 
 
+def coqchk(pid):
+    """Independent re-check of <pid>/Property.vo and everything it depends on; returns the
+    CONTEXT SUMMARY (axioms, type-in-type, unsafe fixpoints, assumed positivity)."""
+    rc, out = sh('coqchk -silent -o -Q . TM TM.%s.Property' % pid, 3000, cwd=COQ)
+    summ = out[out.find('CONTEXT SUMMARY'):] if 'CONTEXT SUMMARY' in out else out[-1500:]
+    fields = {}
+    for key in ('Axioms', 'Constants/Inductives relying on type-in-type',
+                'Constants/Inductives relying on unsafe (co)fixpoints',
+                'Inductives whose positivity is assumed'):
+        m = re.search(r'\* ' + re.escape(key) + r':\s*(.*?)(?=\n\s*\n\* |\Z)', summ, re.S)
+        fields[key] = re.sub(r'\s+', ' ', m.group(1)).strip() if m else '?'
+    return rc == 0, fields, summ[-1500:]
+
+
 def _run_shard(args):
     path, = args
     rc, out = sh('coqc -Q . TM -w none %s' % path, COQC_TIMEOUT, cwd=COQ)
